@@ -1,0 +1,10 @@
+//go:build verif
+
+package fp
+
+// Contracts for rjv (see /verif/DESIGN.md). Comment-only file, compiled only with -tags verif.
+//
+//@ func ParseJSONFloatPrefix(data) (f, n, err)
+//@   input data
+//@   trusted safety contract assumed until the fp functions are brought under contract
+//@   ensures err == nil ==> 0 <= n && n <= len(data)
